@@ -314,4 +314,495 @@ theorem loop_multi {E : Env} (hE : E.Ok) (f : Form) (hf : f.WF) (Q : QuoteInfo)
           rw [ih rest hlen hb.tail (Or.inl hx) (hsafe.suffix (List.suffix_cons _ _)) k _ _ _ hk]
           simp
 
+/-! ### the quote / hash structure of the body mirrors the source -/
+
+/-- an ASCII byte other than LF is copied raw or becomes an escape -/
+theorem esc_ascii (E : Env) (f : Form) (h b0 : Nat) (rest : Bytes) (hlt : b0 < 0x80) (h10 : b0 ≠ 10) :
+    escapeLoop E f true h (b0 :: rest) = b0 :: escapeLoop E f true h rest ∨
+    ∃ tl, escapeLoop E f true h (b0 :: rest) = 0x5C :: tl := by
+  have hd : decodeFirst b0 rest = (b0, 1) := by simp [decodeFirst, hlt]
+  have hbr : (f.exact && (decodeFirst b0 rest).2 == 1 && (decodeFirst b0 rest).1 == 0xFFFD) = false := by
+    rw [hd]
+    have : (b0 == 0xFFFD) = false := by simp; omega
+    simp [this]
+  rw [escapeLoop_ml_good E f h b0 rest hbr (by rw [hd]; exact h10), hd]
+  simp only [Nat.sub_self, List.drop_zero]
+  unfold appendEscapedRune
+  split
+  · right; simp only [appendEscape, List.cons_append]; exact ⟨_, rfl⟩
+  split
+  · left; rw [encodeRune_ascii b0 hlt]; rfl
+  · right; simp only [appendEscape, List.cons_append]; exact ⟨_, rfl⟩
+
+theorem aer_head_high (E : Env) (f : Form) (ml : Bool) (h r : Nat) (hr : 0x80 ≤ r) :
+    ∃ c tl, appendEscapedRune E f ml h r = c :: tl ∧ (c = 0x5C ∨ 0x80 ≤ c) := by
+  unfold appendEscapedRune
+  split
+  · simp only [appendEscape, List.cons_append]; exact ⟨_, _, rfl, Or.inl rfl⟩
+  split
+  · have hb := encodeRune_bytes_high r hr
+    have hl := encodeRune_length r hr
+    match he : encodeRune r with
+    | [] => rw [he] at hl; simp at hl
+    | c :: cs =>
+      rw [he] at hb
+      exact ⟨c, cs, rfl, Or.inr (hb c (by simp)).1⟩
+  · simp only [appendEscape, List.cons_append]; exact ⟨_, _, rfl, Or.inl rfl⟩
+
+/-- a non-ASCII byte: the chunk starts with a backslash or a non-ASCII byte -/
+theorem esc_high (E : Env) (f : Form) (h a : Nat) (rest : Bytes) (ha : 0x80 ≤ a) :
+    ∃ c tl, escapeLoop E f true h (a :: rest) = c :: tl ∧ (c = 0x5C ∨ 0x80 ≤ c) := by
+  have hr80 : 0x80 ≤ (decodeFirst a rest).1 := by
+    obtain ⟨hw1, hcase⟩ := decodeFirst_cases a rest
+    rcases hcase with ⟨hg, _⟩ | ⟨_, _, hr⟩
+    · rcases hg with ⟨h1, h2⟩ | ⟨h1, _⟩
+      · obtain ⟨k, hk⟩ : ∃ k, (decodeFirst a rest).2 = k + 1 := ⟨(decodeFirst a rest).2 - 1, by omega⟩
+        rw [hk, List.take_succ_cons] at h2
+        simp only [List.cons.injEq] at h2
+        omega
+      · exact h1
+    · omega
+  by_cases hbr : (f.exact && (decodeFirst a rest).2 == 1 && (decodeFirst a rest).1 == 0xFFFD) = true
+  · rw [escapeLoop_ml_bad E f h a rest hbr]
+    simp only [appendEscape, List.cons_append]; exact ⟨_, _, rfl, Or.inl rfl⟩
+  · have hbr' : (f.exact && (decodeFirst a rest).2 == 1 && (decodeFirst a rest).1 == 0xFFFD) = false := by
+      simpa using hbr
+    rw [escapeLoop_ml_good E f h a rest hbr' (by omega)]
+    obtain ⟨c, tl, he, hc⟩ := aer_head_high E f true h _ hr80
+    exact ⟨c, _, by rw [he]; rfl, hc⟩
+
+/-- an ASCII character of the body that is neither a backslash nor LF can only come from the
+same character of the source, copied raw -/
+theorem peel (E : Env) (f : Form) (h c : Nat) (hc80 : c < 0x80) (hc5c : c ≠ 0x5C) (hc10 : c ≠ 10)
+    (P t Y : Bytes) (hp : (c :: P).isPrefixOf (escapeLoop E f true h t ++ 10 :: Y) = true) :
+    ∃ t1, t = c :: t1 ∧ P.isPrefixOf (escapeLoop E f true h t1 ++ 10 :: Y) = true := by
+  match t with
+  | [] =>
+    simp [escapeLoop, List.isPrefixOf] at hp
+    omega
+  | a :: t1 =>
+    by_cases ha10 : a = 10
+    · subst ha10
+      rw [escapeLoop_ml_nl] at hp
+      simp [List.isPrefixOf] at hp
+      omega
+    by_cases ha : a < 0x80
+    · rcases esc_ascii E f h a t1 ha ha10 with he | ⟨tl, he⟩
+      · rw [he] at hp
+        simp only [List.cons_append, List.isPrefixOf, Bool.and_eq_true, beq_iff_eq] at hp
+        exact ⟨t1, by rw [hp.1], hp.2⟩
+      · rw [he] at hp
+        simp only [List.cons_append, List.isPrefixOf, Bool.and_eq_true, beq_iff_eq] at hp
+        omega
+    · obtain ⟨c', tl, he, hc'⟩ := esc_high E f h a t1 (by omega)
+      rw [he] at hp
+      simp only [List.cons_append, List.isPrefixOf, Bool.and_eq_true, beq_iff_eq] at hp
+      omega
+
+theorem hash_le (E : Env) (f : Form) (h : Nat) (Y : Bytes) : ∀ (k : Nat) (t : Bytes),
+    (hashes k).isPrefixOf (escapeLoop E f true h t ++ 10 :: Y) = true → k ≤ hashRun t := by
+  intro k
+  induction k with
+  | zero => intros; omega
+  | succ k ih =>
+    intro t hp
+    have hh : hashes (k + 1) = 0x23 :: hashes k := by simp [hashes, List.replicate_succ]
+    rw [hh] at hp
+    obtain ⟨t1, rfl, hp'⟩ := peel E f h 0x23 (by decide) (by decide) (by decide) _ _ _ hp
+    have := ih t1 hp'
+    rw [hashRun_cons_hash]; omega
+
+/-- what `requiredHashCount` has to guarantee: more hashes than follow any run of three or
+more quote characters at the start of the string or of one of its lines -/
+def HashOK (q h : Nat) (s : Bytes) : Prop :=
+  ∀ t', (q :: q :: q :: t' = s ∨ (10 :: q :: q :: q :: t') <:+ s) →
+    hashRun (t'.dropWhile (· == q)) + 1 ≤ h
+
+theorem noclose {E : Env} (f : Form) (hq : f.quote = 0x22 ∨ f.quote = 0x27) (h : Nat) (s : Bytes)
+    (hok : HashOK f.quote h s) (t : Bytes) (ht : t = s ∨ (10 :: t) <:+ s) (Y : Bytes) :
+    (f.quote :: f.quote :: f.quote :: hashes h).isPrefixOf (escapeLoop E f true h t ++ 10 :: Y) = false := by
+  rw [Bool.eq_false_iff]
+  intro hp
+  have q80 : f.quote < 0x80 := by rcases hq with g | g <;> omega
+  have q5c : f.quote ≠ 0x5C := by rcases hq with g | g <;> omega
+  have q10 : f.quote ≠ 10 := by rcases hq with g | g <;> omega
+  have q23 : f.quote ≠ 0x23 := by rcases hq with g | g <;> omega
+  obtain ⟨t1, rfl, hp1⟩ := peel E f h f.quote q80 q5c q10 _ _ _ hp
+  obtain ⟨t2, rfl, hp2⟩ := peel E f h f.quote q80 q5c q10 _ _ _ hp1
+  obtain ⟨t3, rfl, hp3⟩ := peel E f h f.quote q80 q5c q10 _ _ _ hp2
+  have h1 := hash_le E f h Y h t3 hp3
+  have h2 := hok t3 (by
+    rcases ht with ht | ht
+    · left; exact ht
+    · right; exact ht)
+  have h3 : hashRun t3 ≤ hashRun (t3.dropWhile (· == f.quote)) := by
+    match t3 with
+    | [] => simp
+    | a :: r =>
+      by_cases ha : a = f.quote
+      · rw [ha, hashRun_cons_ne _ _ q23]; omega
+      · have : (a == f.quote) = false := by simpa using ha
+        simp [this]
+  omega
+
+/-! ### `requiredHashCount` -/
+
+theorem rhc_cons (q b : Nat) (rest : Bytes) (acc : Nat) :
+    rhcLoop q (b :: rest) acc =
+      if [q, q, q].isPrefixOf (b :: rest) then
+        rhcLoop q (((rest.drop 2).dropWhile (· == q)).drop (hashRun ((rest.drop 2).dropWhile (· == q))))
+          (max acc (hashRun ((rest.drop 2).dropWhile (· == q)) + 1))
+      else rhcLoop q rest acc := by
+  conv => lhs; unfold rhcLoop
+
+theorem jump_len (q : Nat) (rest : Bytes) (k : Nat) :
+    (((rest.drop 2).dropWhile (· == q)).drop k).length ≤ rest.length := by
+  have h1 := (List.dropWhile_sublist (l := List.drop 2 rest) (· == q)).length_le
+  simp only [List.length_drop] at h1 ⊢
+  omega
+
+theorem rhc_mono (q : Nat) : ∀ (n : Nat) (s : Bytes) (acc : Nat), s.length ≤ n → acc ≤ rhcLoop q s acc := by
+  intro n
+  induction n with
+  | zero =>
+    intro s acc hn
+    have : s = [] := List.length_eq_zero_iff.mp (by omega)
+    subst this
+    simp [rhcLoop]
+  | succ n ih =>
+    intro s acc hn
+    match s with
+    | [] => simp [rhcLoop]
+    | b :: rest =>
+      have hlen : rest.length ≤ n := by simp at hn; omega
+      rw [rhc_cons]
+      split
+      · exact Nat.le_trans (Nat.le_max_left _ _) (ih _ _ (Nat.le_trans (jump_len q rest _) hlen))
+      · exact ih rest acc hlen
+
+/-- a run of three or more quote characters at the very start -/
+theorem rhc_start (q : Nat) (t' : Bytes) (acc : Nat) :
+    hashRun (t'.dropWhile (· == q)) + 1 ≤ rhcLoop q (q :: q :: q :: t') acc := by
+  rw [rhc_cons]
+  have : [q, q, q].isPrefixOf (q :: q :: q :: t') = true := by simp [List.isPrefixOf]
+  simp only [this, if_true, List.drop_succ_cons, List.drop_zero]
+  exact Nat.le_trans (Nat.le_max_right _ _) (rhc_mono q _ _ _ (Nat.le_refl _))
+
+theorem suffix_of_cons_ne {c a : Nat} {u l : Bytes} (h : (c :: u) <:+ (a :: l)) (hne : c ≠ a) :
+    (c :: u) <:+ l := by
+  rcases List.suffix_cons_iff.mp h with h | h
+  · simp only [List.cons.injEq] at h; exact absurd h.1 hne
+  · exact h
+
+theorem suffix_dropWhile (p : Nat → Bool) (c : Nat) (u : Bytes) (hc : p c = false) :
+    ∀ l : Bytes, (c :: u) <:+ l → (c :: u) <:+ l.dropWhile p := by
+  intro l
+  induction l with
+  | nil => intro h; simp at h
+  | cons a l ih =>
+    intro h
+    by_cases ha : p a = true
+    · rw [List.dropWhile_cons_of_pos ha]
+      exact ih (suffix_of_cons_ne h (by intro e; rw [e, ha] at hc; cases hc))
+    · rw [List.dropWhile_cons_of_neg ha]; exact h
+
+theorem suffix_drop_hashRun (c : Nat) (u : Bytes) (hc : c ≠ 0x23) :
+    ∀ l : Bytes, (c :: u) <:+ l → (c :: u) <:+ l.drop (hashRun l) := by
+  intro l
+  induction l with
+  | nil => intro h; simp at h
+  | cons a l ih =>
+    intro h
+    by_cases ha : a = 0x23
+    · subst ha
+      rw [hashRun_cons_hash, List.drop_succ_cons]
+      exact ih (suffix_of_cons_ne h hc)
+    · rw [hashRun_cons_ne a l ha]; exact h
+
+/-- a run of three or more quote characters right after a character that is neither a quote
+nor a hash is seen by the scan -/
+theorem rhc_suffix (q c : Nat) (t' : Bytes) (hcq : c ≠ q) (hc23 : c ≠ 0x23) :
+    ∀ (n : Nat) (s : Bytes) (acc : Nat), s.length ≤ n → (c :: q :: q :: q :: t') <:+ s →
+      hashRun (t'.dropWhile (· == q)) + 1 ≤ rhcLoop q s acc := by
+  intro n
+  induction n with
+  | zero =>
+    intro s acc hn hs
+    have : s = [] := List.length_eq_zero_iff.mp (by omega)
+    subst this
+    simp at hs
+  | succ n ih =>
+    intro s acc hn hs
+    match s with
+    | [] => simp at hs
+    | b :: rest =>
+      have hlen : rest.length ≤ n := by simp at hn; omega
+      rw [rhc_cons]
+      split
+      · next hpre =>
+        -- the scan jumps over the run; the jump cannot pass `c`
+        match rest, hpre with
+        | b1 :: b2 :: r3, hpre =>
+          simp only [List.isPrefixOf, Bool.and_eq_true, beq_iff_eq, Bool.and_true] at hpre
+          obtain ⟨rfl, rfl, rfl⟩ := hpre
+          have s1 := suffix_of_cons_ne (suffix_of_cons_ne (suffix_of_cons_ne hs hcq) hcq) hcq
+          have hpc : (fun x : Nat => x == q) c = false := by simpa using hcq
+          have s2 := suffix_dropWhile (fun x : Nat => x == q) c _ hpc r3 s1
+          have s3 := suffix_drop_hashRun c _ hc23 _ s2
+          simp only [List.drop_succ_cons, List.drop_zero]
+          refine ih _ _ ?_ s3
+          have := jump_len q (q :: q :: r3) (hashRun (List.dropWhile (fun x => x == q) r3))
+          simp only [List.drop_succ_cons, List.drop_zero] at this
+          exact Nat.le_trans this hlen
+        | [], hpre => simp [List.isPrefixOf] at hpre
+        | [_], hpre => simp [List.isPrefixOf] at hpre
+      · rcases List.suffix_cons_iff.mp hs with h | h
+        · simp only [List.cons.injEq] at h
+          obtain ⟨rfl, rfl⟩ := h
+          exact rhc_start q t' acc
+        · exact ih rest acc hlen h
+
+theorem requiredHashCount_ok (f : Form) (hq : f.quote = 0x22 ∨ f.quote = 0x27) (s : Bytes) :
+    ∀ t', (f.quote :: f.quote :: f.quote :: t' = s ∨ (10 :: f.quote :: f.quote :: f.quote :: t') <:+ s) →
+    hashRun (t'.dropWhile (· == f.quote)) + 1 ≤ requiredHashCount f s := by
+  intro t' ht
+  unfold requiredHashCount
+  rcases ht with rfl | ht
+  · exact rhc_start _ _ _
+  · exact rhc_suffix f.quote 10 t' (by rcases hq with g | g <;> omega) (by decide) s.length s 0 (Nat.le_refl _) ht
+
+/-! ### `ParseQuotes` on a multi-line literal -/
+
+theorem decodeLast_ascii (X : Bytes) (c : Nat) (hc : c < 0x80) : decodeLastRune (X ++ [c]) = (c, 1) := by
+  simp [decodeLastRune, hc]
+
+theorem tabs_succ (k : Nat) : tabs (k + 1) = tabs k ++ [9] := by
+  simp [tabs, List.replicate_succ']
+
+theorem scanBack_tabs (P : Bytes) : ∀ (k fuel : Nat), k + 1 ≤ fuel →
+    scanBackWS fuel (P ++ 10 :: tabs k) = (P.length + 1, true) := by
+  intro k
+  induction k with
+  | zero =>
+    intro fuel hf
+    obtain ⟨j, rfl⟩ : ∃ j, fuel = j + 1 := ⟨fuel - 1, by omega⟩
+    have h1 : decodeLastRune (P ++ [10]) = (10, 1) := decodeLast_ascii P 10 (by decide)
+    simp [scanBackWS, tabs, h1]
+  | succ k ih =>
+    intro fuel hf
+    obtain ⟨j, rfl⟩ : ∃ j, fuel = j + 1 := ⟨fuel - 1, by omega⟩
+    have e1 : P ++ 10 :: tabs (k + 1) = (P ++ 10 :: tabs k) ++ [9] := by simp [tabs_succ]
+    have h1 : decodeLastRune ((P ++ 10 :: tabs k) ++ [9]) = (9, 1) := decodeLast_ascii _ 9 (by decide)
+    rw [e1]
+    have h2 : ((P ++ 10 :: tabs k) ++ [9]).isEmpty = false := by simp
+    have h3 : ((P ++ 10 :: tabs k) ++ [9]).take (((P ++ 10 :: tabs k) ++ [9]).length - 1) = P ++ 10 :: tabs k := by
+      have : ((P ++ 10 :: tabs k) ++ [9]).length - 1 = (P ++ 10 :: tabs k).length := by simp
+      rw [this, List.take_left]
+    have h4 : isSpace 9 = true := by decide
+    simp only [scanBackWS, h2, h1, h3, h4]
+    simpa using ih j (by omega)
+
+theorem parseQuotes_multi (q : Nat) (hq : q = 0x22 ∨ q = 0x27) (h n : Nat) (W Z : Bytes)
+    (hZ : 10 :: Z = W ++ 10 :: (tabs n ++ q :: q :: q :: hashes h)) :
+    parseQuotes (hashes h ++ q :: q :: q :: 10 :: Z) =
+      if Z.head? != some 10 then
+        (if (tabs n).isPrefixOf Z then
+          .ok ({ char := q, numHash := h, multiline := true, whitespace := tabs n }, 3 + h + 1 + n)
+         else .error .whitespace)
+      else .ok ({ char := q, numHash := h, multiline := true, whitespace := tabs n }, 3 + h + 1) := by
+  have hq23 : q ≠ 0x23 := by rcases hq with g | g <;> omega
+  have hrun := hashRun_hashes h q (q :: q :: 10 :: Z) hq23
+  have hdrop := drop_hashes h (q :: q :: q :: 10 :: Z)
+  have hc : (q != 0x22 && q != 0x27) = false := by rcases hq with g | g <;> simp [g]
+  -- the literal, split in front of the closing delimiter
+  have hL : hashes h ++ q :: q :: q :: 10 :: Z
+      = (hashes h ++ q :: q :: q :: W) ++ 10 :: tabs n ++ (q :: q :: q :: hashes h) := by
+    rw [hZ]; simp
+  have hlenC : (hashes h ++ [q, q, q]).length = 3 + h := by simp [hashes]; omega
+  have hlenC' : (q :: q :: q :: hashes h).length = 3 + h := by simp [hashes]; omega
+  have hop1 : (decide ((q :: q :: q :: 10 :: Z).length > 3) && (q :: q :: q :: 10 :: Z)[1]? == some q &&
+      (q :: q :: q :: 10 :: Z)[2]? == some q && (q :: q :: q :: 10 :: Z)[3]? != some 35) = true := by simp
+  have hop2 : ((q :: q :: q :: 10 :: Z)[3]? == some 10) = true := by simp
+  have htake : List.take (3 + h) (hashes h ++ q :: q :: q :: 10 :: Z) = hashes h ++ [q, q, q] := by
+    have hl : (hashes h).length = h := by simp [hashes]
+    rw [List.take_append, hl]
+    have : 3 + h - h = 3 := by omega
+    rw [this, List.take_of_length_le (by omega)]
+    simp
+  have hrev : (hashes h ++ [q, q, q]).isPrefixOf (List.reverse (hashes h ++ q :: q :: q :: 10 :: Z)) = true := by
+    rw [hL, List.reverse_append]
+    have : (q :: q :: q :: hashes h).reverse = hashes h ++ [q, q, q] := by
+      simp [reverse_hashes]
+    rw [this]
+    simp [List.isPrefixOf_iff_prefix]
+  have hbody : List.take (List.length (hashes h ++ q :: q :: q :: 10 :: Z) - (hashes h ++ [q, q, q]).length)
+      (hashes h ++ q :: q :: q :: 10 :: Z) = (hashes h ++ q :: q :: q :: W) ++ 10 :: tabs n := by
+    rw [hlenC, hL]
+    have : ((hashes h ++ q :: q :: q :: W) ++ 10 :: tabs n ++ (q :: q :: q :: hashes h)).length - (3 + h)
+        = ((hashes h ++ q :: q :: q :: W) ++ 10 :: tabs n).length := by
+      rw [List.length_append (bs := q :: q :: q :: hashes h), hlenC']; omega
+    rw [this, List.take_left]
+  have hscan := scanBack_tabs (hashes h ++ q :: q :: q :: W) n
+    (((hashes h ++ q :: q :: q :: W) ++ 10 :: tabs n).length + 1)
+    (by simp [tabs]; omega)
+  have hws : List.drop ((hashes h ++ q :: q :: q :: W).length + 1) ((hashes h ++ q :: q :: q :: W) ++ 10 :: tabs n)
+      = tabs n := by
+    have : (hashes h ++ q :: q :: q :: W) ++ 10 :: tabs n = ((hashes h ++ q :: q :: q :: W) ++ [10]) ++ tabs n := by simp
+    rw [this]
+    have : (hashes h ++ q :: q :: q :: W).length + 1 = ((hashes h ++ q :: q :: q :: W) ++ [10]).length := by
+      simp only [List.length_append, List.length_cons, List.length_nil]
+    rw [this, List.drop_left]
+  have hdropN : List.drop (3 + h + 1) (hashes h ++ q :: q :: q :: 10 :: Z) = Z := by
+    have : 3 + h + 1 = h + 4 := by omega
+    rw [this, ← List.drop_drop, drop_hashes]; rfl
+  have hidx : (hashes h ++ q :: q :: q :: 10 :: Z)[3 + h + 1]? = Z.head? := by
+    rw [← List.head?_drop, hdropN]
+  have hZlen : 3 ≤ Z.length := by
+    have := congrArg List.length hZ
+    simp at this; omega
+  have hlen : decide (List.length (hashes h ++ q :: q :: q :: 10 :: Z) > 3 + h + 1) = true := by
+    simp [hashes]; omega
+  have htl : (tabs n).length = n := by simp [tabs]
+  unfold parseQuotes
+  simp only [hrun, hdrop, hc, Bool.false_eq_true, if_false]
+  simp only [hop1, hop2, if_true]
+  simp only [htake, hrev, Bool.not_true, Bool.false_eq_true, if_false, hbody, hscan, hws,
+    hidx, hlen, hdropN, htl, Bool.true_and]
+  cases (Z.head? != some 10) <;> cases (tabs n).isPrefixOf Z <;> simp
+
+/-! ### assembly -/
+
+/-- what `ParseQuotes` finds in a multi-line literal -/
+def mlInfo (f : Form) (h : Nat) : QuoteInfo :=
+  { char := f.quote, numHash := h, multiline := true, whitespace := tabs f.indent }
+
+theorem drop_opener (h q : Nat) (Z : Bytes) : (hashes h ++ q :: q :: q :: 10 :: Z).drop (3 + h + 1) = Z := by
+  have : 3 + h + 1 = h + 4 := by omega
+  rw [this, ← List.drop_drop, drop_hashes]; rfl
+
+theorem parse_lit (f : Form) (hq : f.quote = 0x22 ∨ f.quote = 0x27) (h : Nat) (X ind0 W : Bytes)
+    (hind : ind0 = tabs f.indent ∨ (ind0 = [] ∧ X.head? = some 10))
+    (hW : 10 :: (ind0 ++ X) = W ++ 10 :: (tabs f.indent ++ f.quote :: f.quote :: f.quote :: hashes h)) :
+    ∃ N, parseQuotes (hashes h ++ f.quote :: f.quote :: f.quote :: 10 :: (ind0 ++ X)) = .ok (mlInfo f h, N) ∧
+      (hashes h ++ f.quote :: f.quote :: f.quote :: 10 :: (ind0 ++ X)).drop N = X := by
+  rw [parseQuotes_multi f.quote hq h f.indent W (ind0 ++ X) hW]
+  have htl : (tabs f.indent).length = f.indent := by simp [tabs]
+  rcases hind with rfl | ⟨rfl, hX⟩
+  · have hp : (tabs f.indent).isPrefixOf (tabs f.indent ++ X) = true := by simp [List.isPrefixOf_iff_prefix]
+    simp only [hp, if_true]
+    by_cases c : ((tabs f.indent ++ X).head? != some 10) = true
+    · refine ⟨3 + h + 1 + f.indent, by simp only [c, if_true]; rfl, ?_⟩
+      rw [← List.drop_drop, drop_opener]
+      conv => lhs; arg 1; rw [← htl]
+      exact List.drop_left
+    · refine ⟨3 + h + 1, by simp only [c]; rfl, ?_⟩
+      rw [drop_opener]
+      match hn : f.indent with
+      | 0 => simp [tabs]
+      | k + 1 => rw [hn] at c; simp [tabs, List.replicate_succ] at c
+  · refine ⟨3 + h + 1, ?_, by rw [drop_opener]; rfl⟩
+    simp [hX]; rfl
+
+theorem unquote_mlInfo_nil (f : Form) (hq : f.quote = 0x22 ∨ f.quote = 0x27) :
+    (mlInfo f 0).unquote [f.quote, f.quote, f.quote] = .ok [] := by
+  have h0 : (f.quote != 0) = true := by rcases hq with h | h <;> simp [h]
+  have e13 : (f.quote == 13) = false := by rcases hq with h | h <;> simp [h]
+  have e10 : (f.quote == 10) = false := by rcases hq with h | h <;> simp [h]
+  have huc := uc_close_ml (mlInfo f 0) hq rfl
+  simp only [mlInfo, hashes, List.replicate] at huc
+  simp [QuoteInfo.unquote, mlInfo, hasClosingDelimPrefix, QuoteInfo.closing, QuoteInfo.numChar, hashes,
+    unquoteLoop, unquoteCharSur, huc, e13, e10]
+
+/-- `QuoteInfo.Unquote` on a body followed by LF, indentation and the closing delimiter -/
+theorem unquote_body {E : Env} (hE : E.Ok) (f : Form) (hf : f.WF) (h : Nat) (s : Bytes) (hb : IsBytes s)
+    (hv : f.exact = true ∨ validUTF8 s = true) (hok : HashOK f.quote h s) :
+    (mlInfo f h).unquote (escapeLoop E f true h s ++ mlEnd (mlInfo f h)) = .ok s := by
+  have hq : f.quote = 0x22 ∨ f.quote = 0x27 := by rcases hf with h | h <;> simp [h.1]
+  have hcl : (mlInfo f h).closing = f.quote :: f.quote :: f.quote :: hashes h := closing_ml (mlInfo f h) rfl
+  have hnc : ∀ t, (t = s ∨ (10 :: t) <:+ s) →
+      (mlInfo f h).closing.isPrefixOf (escapeLoop E f true h t ++ mlEnd (mlInfo f h)) = false := by
+    intro t ht
+    rw [hcl]
+    exact noclose f hq h s hok t ht _
+  have hsafe : Safe E f (mlInfo f h) s := fun t ht => hnc t (Or.inr ht)
+  have hm : (mlInfo f h).multiline = true := rfl
+  have hloop : ∀ fuel, (escapeLoop E f true h s).length + 2 ≤ fuel →
+      unquoteLoop (mlInfo f h) fuel (escapeLoop E f true h s ++ mlEnd (mlInfo f h)) [] false false
+        = .ok ([] ++ s) := fun fuel hfu =>
+    loop_multi hE f hf (mlInfo f h) rfl rfl rfl s.length s (Nat.le_refl _) hb hv hsafe fuel [] false false hfu
+  simp only [QuoteInfo.unquote, hm, Bool.not_true, Bool.and_false, Bool.false_and, Bool.false_eq_true,
+    if_false, hasClosingDelimPrefix, hnc s (Or.inl rfl)]
+  rw [hloop _ (by simp only [List.length_append, mlEnd, List.length_cons]; omega)]
+  rfl
+
+/-- multi-line forms round-trip, for any single-line hash counter (it is not consulted) -/
+theorem roundtrip_multi_with {E : Env} (hE : E.Ok) (slhc : Env → Form → Bytes → Nat) (f : Form) (hf : f.WF)
+    (s : Bytes) (hb : IsBytes s) (hv : f.exact = true ∨ validUTF8 s = true)
+    (hml : f.effMultiline s = true) : unquote (quoteWith slhc E f s) = .ok s := by
+  have hq : f.quote = 0x22 ∨ f.quote = 0x27 := by rcases hf with h | h <;> simp [h.1]
+  match s with
+  | [] =>
+    have hlit : quoteWith slhc E f [] =
+        hashes 0 ++ f.quote :: f.quote :: f.quote :: 10 :: (tabs f.indent ++ [f.quote, f.quote, f.quote]) := by
+      simp [quoteWith, hml, hashCountWith, requiredHashCount, rhcLoop, Form.triple, hashes]
+    obtain ⟨N, hp, hd⟩ := parse_lit f hq 0 [f.quote, f.quote, f.quote] (tabs f.indent) [] (Or.inl rfl)
+      (by simp [hashes])
+    rw [hlit]
+    unfold unquote
+    rw [hp]
+    simp only [hd]
+    exact unquote_mlInfo_nil f hq
+  | b0 :: rest =>
+    have hok : HashOK f.quote (requiredHashCount f (b0 :: rest)) (b0 :: rest) := requiredHashCount_ok f hq _
+    have hbody := unquote_body hE f hf _ (b0 :: rest) hb hv hok
+    have hlit : quoteWith slhc E f (b0 :: rest) =
+        hashes (requiredHashCount f (b0 :: rest)) ++ f.quote :: f.quote :: f.quote :: 10 ::
+          ((if b0 = 10 then [] else tabs f.indent) ++
+            (escapeLoop E f true (requiredHashCount f (b0 :: rest)) (b0 :: rest) ++
+              mlEnd (mlInfo f (requiredHashCount f (b0 :: rest))))) := by
+      simp [quoteWith, hml, hashCountWith, appendEscaped, Form.triple, mlEnd, mlInfo]
+    rw [hlit]
+    generalize requiredHashCount f (b0 :: rest) = h at hok hbody ⊢
+    have hparse : ∃ N,
+        parseQuotes (hashes h ++ f.quote :: f.quote :: f.quote :: 10 ::
+          ((if b0 = 10 then [] else tabs f.indent) ++
+            (escapeLoop E f true h (b0 :: rest) ++ mlEnd (mlInfo f h)))) = .ok (mlInfo f h, N) ∧
+        (hashes h ++ f.quote :: f.quote :: f.quote :: 10 ::
+          ((if b0 = 10 then [] else tabs f.indent) ++
+            (escapeLoop E f true h (b0 :: rest) ++ mlEnd (mlInfo f h)))).drop N
+          = escapeLoop E f true h (b0 :: rest) ++ mlEnd (mlInfo f h) := by
+      by_cases h10 : b0 = 10
+      · subst h10
+        simp only [if_true]
+        refine parse_lit f hq h _ [] (10 :: escapeLoop E f true h (10 :: rest)) (Or.inr ⟨rfl, ?_⟩) ?_
+        · rw [escapeLoop_ml_nl]; rfl
+        · simp [mlEnd, mlInfo]
+      · simp only [h10, if_false]
+        exact parse_lit f hq h _ (tabs f.indent) (10 :: (tabs f.indent ++ escapeLoop E f true h (b0 :: rest)))
+          (Or.inl rfl) (by simp [mlEnd, mlInfo])
+    obtain ⟨N, hp, hd⟩ := hparse
+    unfold unquote
+    rw [hp]
+    simp only [hd]
+    exact hbody
+
+/-- C09_roundtrip_multi: every multi-line form (`WithTabIndent(n)`, `WithOptionalTabIndent(n)` on a
+string that contains a line feed; String and Bytes; any options) reads back what was quoted -/
+theorem roundtrip_multi {E : Env} (hE : E.Ok) (f : Form) (hf : f.WF) (s : Bytes) (hb : IsBytes s)
+    (hv : f.exact = true ∨ validUTF8 s = true) (hml : f.effMultiline s = true) :
+    unquote (quote E f s) = .ok s :=
+  roundtrip_multi_with hE singleLineHashCount f hf s hb hv hml
+
+/-- three consecutive quote characters somewhere in the string -/
+def hasTriple (q : Nat) : Bytes → Bool
+  | a :: b :: c :: t => (a == q && b == q && c == q) || hasTriple q (b :: c :: t)
+  | _ => false
+
+/-- stage 1 (kept as a named special case; the hypothesis is not needed any more):
+strings without three consecutive quote characters -/
+theorem roundtrip_multi_notriple {E : Env} (hE : E.Ok) (f : Form) (hf : f.WF) (s : Bytes) (hb : IsBytes s)
+    (hv : f.exact = true ∨ validUTF8 s = true) (hml : f.effMultiline s = true)
+    (_hnoq : hasTriple f.quote s = false) : unquote (quote E f s) = .ok s :=
+  roundtrip_multi hE f hf s hb hv hml
+
 end CueVerif.Quote
